@@ -174,7 +174,7 @@ func (c *fpCtx) val(v AV) {
 		} else if x.Top {
 			fmt.Fprintf(sb, "s?%v%v", x.Opq, x.MayNil)
 		} else {
-			fmt.Fprintf(sb, "s[%d:%d:%d]%v(", x.Lo, x.Hi, x.Cap, x.MayNil)
+			fmt.Fprintf(sb, "s[%d:%d:%d]%v%v(", x.Lo, x.Hi, x.Cap, x.MayNil, x.CapUnk)
 			c.cell(x.Arr)
 			sb.WriteString(")")
 		}
